@@ -109,7 +109,7 @@ func runC19(r *sim.Run) {
 	r.StepBudget = 400000
 	disk.StepFn = r.Step
 	disk.DirVolatile = t.Bool("dirvolatile", 1, 2)
-	vos.Knobs.WriteBuffer = []int{4 << 10, 64 << 10, 1 << 20}[t.Choose("knob.wb", 3)]
+	vos.Knobs.WriteBuffer = []int{64 << 10, 256 << 10, 1 << 20}[t.Choose("knob.wb", 3)]
 	vos.Knobs.BlockCache = []int{8 << 10, 1 << 20}[t.Choose("knob.bc", 2)]
 	faults := r.Config == "powerloss"
 
